@@ -162,6 +162,9 @@ func (ff *FuncFacts) linearize(v ssa.Value, depth int) lin {
 			if arr, ok := derefArray(x.Call.Args[0].Type()); ok {
 				return lin{"", arr.Len(), true}
 			}
+			if mk, ok := x.Call.Args[0].(*ssa.MakeSlice); ok {
+				return ff.linearize(mk.Len, depth+1) // len(make(T, n)) == n
+			}
 			return lin{ff.lenAtom(x.Call.Args[0]), 0, true}
 		}
 		if a, ok := ff.lenGetter(x); ok {
@@ -172,6 +175,41 @@ func (ff *FuncFacts) linearize(v ssa.Value, depth int) lin {
 }
 
 func (ff *FuncFacts) lenAtom(x ssa.Value) string { return "len(" + ff.Term(x) + ")" }
+
+// madeLen: x is a load of a field of a local struct whose only store to that field
+// is a make([]T, n): returns n.
+func (ff *FuncFacts) madeLen(x ssa.Value) (ssa.Value, bool) {
+	ld, ok := x.(*ssa.UnOp)
+	if !ok || ld.Op != token.MUL {
+		return nil, false
+	}
+	fa, ok := ld.X.(*ssa.FieldAddr)
+	if !ok {
+		return nil, false
+	}
+	a, ok := fa.X.(*ssa.Alloc)
+	if !ok {
+		return nil, false
+	}
+	var mk *ssa.MakeSlice
+	n := 0
+	for _, rf := range *a.Referrers() {
+		f2, ok := rf.(*ssa.FieldAddr)
+		if !ok || f2.Field != fa.Field {
+			continue
+		}
+		for _, rr := range *f2.Referrers() {
+			if st, ok := rr.(*ssa.Store); ok && st.Addr == f2 {
+				n++
+				mk, _ = st.Val.(*ssa.MakeSlice)
+			}
+		}
+	}
+	if n == 1 && mk != nil {
+		return mk.Len, true
+	}
+	return nil, false
+}
 
 // contracts: relations between the results / arguments of callees that the bounds
 // reasoner may assume.  Each entry was confirmed by reading the callee.
@@ -315,6 +353,24 @@ func (ff *FuncFacts) factsAt(B *ssa.BasicBlock) *dbm {
 					if k, ok := ct[0]; ok && call.Call.Signature().Results().Len() == 1 && k < len(call.Call.Args) {
 						ff.addLenBound(m, v, call.Call.Args[k])
 					}
+				}
+			}
+		}
+	}
+	// less-function of sort.Slice(x, func(i, j int) bool): 0 <= i, j < len(x)
+	if ff.isSortLess() {
+		for _, blk := range ff.Fn.Blocks {
+			for _, in := range blk.Instrs {
+				var X, I ssa.Value
+				switch x := in.(type) {
+				case *ssa.IndexAddr:
+					X, I = x.X, x.Index
+				case *ssa.Index:
+					X, I = x.X, x.Index
+				}
+				if prm, ok := I.(*ssa.Parameter); ok && X != nil {
+					m.add("", ff.Term(prm), 0)
+					m.add(ff.Term(prm), ff.lenAtom(X), -1)
 				}
 			}
 		}
@@ -486,6 +542,10 @@ func (ff *FuncFacts) BoundSites() []BoundSite {
 					length = lin{"", arr.Len(), true}
 				} else if arr, ok := X.Type().Underlying().(*types.Array); ok {
 					length = lin{"", arr.Len(), true}
+				} else if mk, ok := X.(*ssa.MakeSlice); ok {
+					length = ff.linearize(mk.Len, 1)
+				} else if ln, ok := ff.madeLen(X); ok {
+					length = ff.linearize(ln, 1)
 				} else {
 					length = lin{ff.lenAtom(X), 0, true}
 				}
@@ -579,4 +639,34 @@ func (ff *FuncFacts) prevCallOn(blk *ssa.BasicBlock, i int, recv string) *ssa.Ca
 		i = len(blk.Instrs)
 	}
 	return nil
+}
+
+// isSortLess: the function is a closure used only as the less argument of
+// sort.Slice / sort.SliceStable.
+func (ff *FuncFacts) isSortLess() bool {
+	fn := ff.Fn
+	if fn.Parent() == nil || len(fn.Params) != 2 {
+		return false
+	}
+	found := false
+	for _, b := range fn.Parent().Blocks {
+		for _, in := range b.Instrs {
+			mc, ok := in.(*ssa.MakeClosure)
+			if !ok || mc.Fn != fn {
+				continue
+			}
+			for _, rf := range *mc.Referrers() {
+				c, ok := rf.(*ssa.Call)
+				if !ok {
+					return false
+				}
+				n := calleeName(&c.Call)
+				if n != "sort.Slice" && n != "sort.SliceStable" {
+					return false
+				}
+				found = true
+			}
+		}
+	}
+	return found
 }
